@@ -18,6 +18,17 @@ impl Engine {
     /// Executes one op on library and model. Err = violation.
     pub fn step(&mut self, op: &Op) -> Result<(), Fail> {
         self.stats.ops_run += 1;
+        // the in-memory "disk" is capped (backend.rs): very large writes are skipped once
+        // the image is big, instead of running into the harness's own limit
+        let big = match op {
+            Op::CreateStream { data, .. } | Op::CreateNewStream { data, .. } | Op::Overwrite { data, .. } | Op::HWrite { data, .. } | Op::HWriteAll { data, .. } => data.len as usize,
+            Op::SetLen { len: LenSpec::Abs(l), .. } | Op::HSetLen { len: LenSpec::Abs(l), .. } => *l as usize,
+            _ => 0,
+        };
+        if big > (1 << 20) && self.io.len() + 2 * big > self.io.cap / 2 {
+            self.stats.excluded += 1;
+            return Ok(());
+        }
         if let Op::HOpen { slot, .. } | Op::HCreate { slot, .. } = op {
             // the slot's previous handle is closed (and thereby flushed) by the harness
             // before the call whose effect is judged
